@@ -14,7 +14,30 @@ func init() {
 		Title: "parallel.MapIterator/MapStream keep order, bound the buffer, never deadlock",
 		Rules: []*Rule{
 			{ID: "C14.lockset", Floor: 6, Clause: "mapIterator.inFlight is read and written only with iter.m held, including in the dispatcher goroutine",
-				Run: func(c *Ctx, r *R) { guardedAccesses(c, r, "inFlight", "parallel", "mapIterator", "inFlight", "m") }},
+				Run: func(c *Ctx, r *R) {
+					// the mutex by role: the struct's own mutex field, or - when there is none - the Locker of its sync.Cond
+					// (cond.L), which is what cond.Wait releases and re-acquires
+					mu := "m"
+					if tn := c.lookupType("parallel", "mapIterator"); tn != nil {
+						if st, ok := tn.Type().Underlying().(*types.Struct); ok {
+							hasMu, condF := false, ""
+							for i := 0; i < st.NumFields(); i++ {
+								ft := st.Field(i).Type()
+								if isNamedType(ft, "sync", "Mutex") || isNamedType(ft, "sync", "RWMutex") {
+									hasMu = true
+									mu = canonField(tn.Type(), st.Field(i).Name())
+								}
+								if pt, ok := ft.(*types.Pointer); ok && isNamedType(pt.Elem(), "sync", "Cond") {
+									condF = canonField(tn.Type(), st.Field(i).Name())
+								}
+							}
+							if !hasMu && condF != "" {
+								mu = condF + ".L"
+							}
+						}
+					}
+					guardedAccesses(c, r, "inFlight", "parallel", "mapIterator", "inFlight", mu)
+				}},
 			{ID: "C14.cond-protocol", Floor: 3, Clause: "cond.Wait() sits in a loop that re-tests inFlight >= bufferSize; the consumer's Signal condition is implied by inFlight == bufferSize-1 after its decrement (covers the predicate flip); the field bufferSize is the dispatcher's bound",
 				Run: ruleMapIterCond},
 			{ID: "C14.slot-accounting", Floor: 6, Clause: "the dispatcher takes exactly one slot before each hand-over; the consumer returns exactly one slot on every yielding path and none on any other; ready's capacity and pre-fill use the same bound",
@@ -92,26 +115,26 @@ func ruleMapIterCond(c *Ctx, r *R) {
 	}
 	// the struct's bufferSize field holds the same (clamped) value
 	okField := false
-	instrs(mi, func(b *ssa.BasicBlock, i int, in ssa.Instruction) {
-		if st, ok := in.(*ssa.Store); ok {
-			if _, f, ok := storedField(st.Addr); ok && f == "bufferSize" && bufCell != nil && loadCell(st.Val) == bufCell {
+	for _, d := range deepInstrs(mi, 2) { // the literal may be built by a constructor helper (newMapIterator(bufferSize))
+		if st, ok := d.in.(*ssa.Store); ok {
+			if _, f, ok := storedField(st.Addr); ok && f == "bufferSize" && bufCell != nil && loadCell(argOf(st.Val, d.calls)) == bufCell {
 				okField = true
 			}
 		}
-	})
+	}
 	if boundIsField {
 		// the field must be initialised from the (clamped) bufferSize parameter
-		instrs(mi, func(b *ssa.BasicBlock, i int, in ssa.Instruction) {
-			if st, ok := in.(*ssa.Store); ok {
+		for _, d := range deepInstrs(mi, 2) {
+			if st, ok := d.in.(*ssa.Store); ok {
 				if _, f, ok := storedField(st.Addr); ok && f == "bufferSize" {
-					for _, lf := range valueLeaves(st.Val, nil, 0) {
+					for _, lf := range valueLeaves(st.Val, d.calls, 0) {
 						if p, ok := lf.v.(*ssa.Parameter); ok && p.Parent() == mi && isIntType(p.Type()) {
 							okField = true
 						}
 					}
 				}
 			}
-		})
+		}
 	}
 	r.ok(okField, "parallel.MapIterator|same-bound", mi.Pos(), "mapIterator.bufferSize must be initialised from the same variable the dispatcher compares inFlight with")
 	// consumer: Signal condition
